@@ -56,6 +56,7 @@ r("C04", "revert D20", G, 'content ? content : "", value);', "content, value);")
 r("C04", "revert D2", G, "	if( org_len > 0 && org_buf[org_len-1] == '\\n' )", "	if( org_buf[org_len-1] == '\\n' )")
 r("C04", "trim order swapped", X, "  return rtrim(ltrim(s));", "  return ltrim(rtrim(s));")
 r("C04", "merge shrink without guard", M, "    if (added_keys > 0)\n      *fe = realloc(*fe, (added_keys) * sizeof(struct file_entry));", "    *fe = realloc(*fe, (added_keys) * sizeof(struct file_entry));")
+r("C04", "rtrim without the empty-string exit", X, "  if (strlen(s)<=0)\n    return s;\n", "")
 # ---- C05 ----------------------------------------------------------------------------------------------------------------
 r("C05", "comment test on the raw buffer", G, "    if (*name && strchr(comment, *name) != NULL) {", "    if (*buf && strchr(comment, *buf) != NULL) {")
 r("C05", "comment branch falls through", G, "	current_comment_before_key = strdup(name+1);\n      }\n      continue;", "	current_comment_before_key = strdup(name+1);\n      }\n      *name = 0;")
@@ -111,6 +112,9 @@ r("C11", "default on every error", "lib/get_value_def.c", "  if (error == ECONF_
 r("C11", "keys filtered by prefix", L, "if (!strcmp(kf->file_entry[i].group, group)) {", "if (!strncmp(kf->file_entry[i].group, group, 1)) {")
 r("C11", "section always appended", H, "  char *ret = getFromGroupList(key_file, name);\n  if (ret != NULL)\n    return ret;", "  char *ret = NULL;")
 r("C11", "setter without bracket stripping", L, "setKeyValue(set ## TYPE ## ValueNum, kf, stripbrackets(grp), key, VALARG); \\", "setKeyValue(set ## TYPE ## ValueNum, kf, grp, key, VALARG); \\")
+r("C11", "empty section name is not the marker in getKeys", L, "char *group = (!grp || !*grp) ? strdup(KEY_FILE_NULL_VALUE) : strdup(grp);", "char *group = (!grp) ? strdup(KEY_FILE_NULL_VALUE) : strdup(grp);")
+r("C11", "marker choice dereferences NULL in new_key", H, "  char *grp = (!group || !*group) ? strdup(KEY_FILE_NULL_VALUE) : strdup(group);\n  if (grp == NULL)\n    return ECONF_NOMEM;\n  if (key_file == NULL",
+  "  char *grp = (!*group) ? strdup(KEY_FILE_NULL_VALUE) : strdup(group);\n  if (grp == NULL)\n    return ECONF_NOMEM;\n  if (key_file == NULL")
 r("C11", "NULL object test removed", L, "  if (!kf) \\\n    return ECONF_ERROR; \\\n\\\n  size_t num; \\", "  size_t num; \\")
 r("C11", "empty key accepted by setters", L, "  if (!key || strlen(key)<= 0)	    \\\n    return ECONF_EMPTYKEY; \\", "  if (!key)	    \\\n    return ECONF_EMPTYKEY; \\")
 # ---- C12 ----------------------------------------------------------------------------------------------------------------
